@@ -322,6 +322,7 @@ class Runner:
         mdp = RefMDP(self.kind, self.comps, plan["world"])
         exec_mode = plan["knobs"].get("exec_mode", "jit")
         state = None
+        hist: list = []  # earlier (state, action, key) inputs of this run, for heterogeneous vmap batches
         cur = None  # host view of the current state
         E = res.events
 
@@ -421,12 +422,26 @@ class Runner:
                     outs = env.step(state, jnp.asarray(a), key=key)
                 res.probes["mode_eager_ops"] += 1
             elif exec_mode == "vmap":
-                B = 3
-                st_b = jax.tree.map(lambda x: jnp.stack([x] * B), state)
-                a_b = jnp.stack([jnp.asarray(a)] * B)
-                outs_b = self._vstep(env, st_b, a_b, jnp.stack([key] * B))
-                outs = jax.tree.map(lambda x: x[1], outs_b)
+                # heterogeneous batch: the current input plus the two most recent earlier inputs of this run (other episode
+                # ages, other actions, other keys), so that one element can end its episode while another does not
+                batch = [(state, jnp.asarray(a), key)] + hist[-2:]
+                while len(batch) < 3:
+                    batch.append(batch[0])
+                st_b = jax.tree.map(lambda *xs: jnp.stack(xs), *[b[0] for b in batch])
+                a_b = jnp.stack([b[1] for b in batch])
+                outs_b = self._vstep(env, st_b, a_b, jnp.stack([b[2] for b in batch]))
+                outs = jax.tree.map(lambda x: x[0], outs_b)
                 res.probes["mode_vmap_ops"] += 1
+                if "C12" in props:
+                    dones = []
+                    for j in range(1, 3):
+                        single = jax.device_get(env.step(batch[j][0], batch[j][1], key=batch[j][2]))
+                        self._mode_equal(res, "vmap_batch_element", jax.device_get(jax.tree.map(lambda x, _j=j: x[_j], outs_b)), single)
+                        dones.append(bool(single[3]) or bool(single[4]))
+                    d0 = jax.device_get(outs)
+                    dones.append(bool(d0[3]) or bool(d0[4]))
+                    if any(dones) and not all(dones):
+                        res.events["E.vmap_batch_mixed_episode_ends"] += 1
             else:
                 outs = env.step(state, jnp.asarray(a), key=key)
             new_state, obs, reward, terminal, truncated, info = outs
@@ -446,6 +461,7 @@ class Runner:
             else:
                 res.ok("C01", "step_obs_of_returned_state")
             self._space_check(res, props, env, obs)
+            hist.append((state, jnp.asarray(a), key))
             state, cur = new_state, nxt
             res.steps += 1
         return res
